@@ -3,7 +3,11 @@ package props
 
 import (
 	"fmt"
+	"math/rand"
 	"sort"
+
+	"github.com/tobgu/qframe"
+	"github.com/tobgu/qframe/config/groupby"
 
 	"qverif/fw"
 	"qverif/model"
@@ -64,4 +68,59 @@ func shapeConclude(minNonIdentityPct int64) func(tier string, counters map[strin
 		}
 		return ""
 	}
+}
+
+// aggregateDerive replaces the root by GroupBy(one key).Aggregate(min of __id, first value of every other column),
+// so that the frame under test is one produced by Aggregate. Returns nil when that is not possible.
+func aggregateDerive(rng *rand.Rand, root *model.Root) *model.Root {
+	sh := root.Shadow
+	if sh.Col(model.IDCol) == nil || sh.Len() == 0 || len(sh.Cols) < 3 {
+		return nil
+	}
+	var key string
+	for _, p := range rng.Perm(len(sh.Cols)) {
+		if sh.Cols[p].Name != model.IDCol {
+			key = sh.Cols[p].Name
+			break
+		}
+	}
+	aggs := []qframe.Aggregation{{Fn: "min", Column: model.IDCol}}
+	for _, col := range sh.Cols {
+		if col.Name == key || col.Name == model.IDCol {
+			continue
+		}
+		switch col.Kind {
+		case model.KInt:
+			aggs = append(aggs, qframe.Aggregation{Column: col.Name, Fn: func(v []int) int { return v[0] }})
+		case model.KFloat:
+			aggs = append(aggs, qframe.Aggregation{Column: col.Name, Fn: func(v []float64) float64 { return v[0] }})
+		case model.KBool:
+			aggs = append(aggs, qframe.Aggregation{Column: col.Name, Fn: func(v []bool) bool { return v[0] }})
+		default:
+			aggs = append(aggs, qframe.Aggregation{Column: col.Name, Fn: func(v []*string) *string {
+				if v[0] == nil {
+					return nil
+				}
+				s := *v[0]
+				return &s
+			}})
+		}
+	}
+	rng.Shuffle(len(aggs), func(i, j int) { aggs[i], aggs[j] = aggs[j], aggs[i] })
+	var res qframe.QFrame
+	if pv, _ := fw.Guard(func() { res = root.QF.GroupBy(groupby.Columns(key), groupby.Null(true)).Aggregate(aggs...) }); pv != nil || res.Err != nil {
+		return nil
+	}
+	obs, err := model.Observe(res) // deliberately without the invariant hook: the operation under test must reveal a problem
+	if err != nil {
+		return nil
+	}
+	meta := model.MetaOf(sh)
+	for name, m := range meta {
+		if name != key && m.Kind == model.KEnum {
+			delete(meta, name)
+		}
+	}
+	meta.Apply(obs)
+	return &model.Root{Shadow: obs, QF: res, Path: root.Path, Ops: append(append([]string{}, root.Ops...), fmt.Sprintf("GroupBy(%q).Aggregate(min __id, first of the rest)", key)), Shape: model.IndexShape(res)}
 }
